@@ -89,6 +89,24 @@ class Effects:
                                     f = f.value
                                 if isinstance(f, ast.Name) and f.id in ('np', 'numpy'):
                                     np_yes.add(t.attr)
+        # self.f = local  where the local was bound to an np.* call in the same function
+        for mod in modules.values():
+            for fn in ast.walk(mod.tree):
+                if not isinstance(fn, ast.FunctionDef):
+                    continue
+                np_locals = set()
+                for n in ast.walk(fn):
+                    if isinstance(n, ast.Assign) and len(n.targets) == 1 and isinstance(n.targets[0], ast.Name) and isinstance(n.value, ast.Call):
+                        f = n.value.func
+                        while isinstance(f, ast.Attribute):
+                            f = f.value
+                        if isinstance(f, ast.Name) and f.id in ('np', 'numpy'):
+                            np_locals.add(n.targets[0].id)
+                for n in ast.walk(fn):
+                    if isinstance(n, ast.Assign) and isinstance(n.value, ast.Name) and n.value.id in np_locals:
+                        for t in n.targets:
+                            if isinstance(t, ast.Attribute):
+                                np_yes.add(t.attr)
         self.numpy_fields = np_yes - np_no
         self._reb: dict[int, set] = {}
         self.subs: dict[str, set] = {}
